@@ -421,9 +421,17 @@ class Emitter:
                 n = p[0]
                 if n in env:
                     return lean_ident(n), env[n]
+                if getattr(self, 'uint_mode', False) and n in ('BITS', 'LIMBS'):
+                    return n, 'usize'
                 if n in self.consts:
                     return self.consts[n]
                 raise TranslateError('unknown variable %s' % n)
+            if len(p) == 2 and getattr(self, 'uint_mode', False) and p[0] == 'Self':
+                um = {'LIMBS': ('LIMBS', 'usize'), 'BITS': ('BITS', 'usize'), 'MASK': ('(mask BITS)', 'u64'),
+                      'ZERO': ('(List.replicate LIMBS 0)', 'uint'),
+                      'SHOULD_MASK': ('(decide (BITS > 0) && ((mask BITS) != (2 ^ 64 - 1)))', 'bool')}
+                if p[1] in um:
+                    return um[p[1]]
             if len(p) == 2:
                 key = '%s::%s' % (self.self_name if p[0] == 'Self' and self.self_name else p[0], p[1])
                 if key in getattr(self, 'gconsts', {}):
@@ -468,9 +476,16 @@ class Emitter:
             return self.call(e, env, exp)
         if k == 'mcall':
             return self.mcall(e, env, exp)
+        if k == 'fieldname':
+            s, t = self.expr(e[1], env)
+            if e[2] == 'limbs' and t == 'uint':
+                return s, 'uint'
+            raise TranslateError('unsupported field .%s' % e[2])
         if k == 'index':
             s, t = self.expr(e[1], env)
             i, _ = self.expr(e[2], env, 'usize')
+            if t == 'uint':
+                return '(%s.getD %s 0)' % (s, i), 'u64'
             if t[0] != 'array':
                 raise TranslateError('index into non-array')
             return '(%s.getD %s 0)' % (s, i), t[1]
@@ -590,6 +605,13 @@ class Emitter:
                 sig = self.fns[key]
                 ss = [sr] + [self.expr(a, env, self.ty(pt))[0] for a, pt in zip(args, sig[1][1:])]
                 return '(%s %s)' % (sig[0], ' '.join(ss)), sig[2]
+        if tr == 'uint' and ('Uint::' + name) in self.fns:
+            sig = self.fns['Uint::' + name]
+            ss = ['BITS', 'LIMBS', sr] + [self.expr(a, env, self.ty(pt))[0] for a, pt in zip(args, sig[1][1:])]
+            if len(sig) > 3 and sig[3]:
+                self.uses_fuel = True
+                ss = ['fuel'] + ss
+            return '(%s %s)' % (sig[0], ' '.join(ss)), sig[2]
         if isinstance(tr, tuple) and tr[0] == 'tuple':
             for sn, st in self.structs.items():
                 if st == tr and ('%s::%s' % (sn, name)) in self.fns:
@@ -614,9 +636,13 @@ class Emitter:
                 for n in self.pat_names(s[1]):
                     local.add(n)
             elif s[0] == 'assign':
-                n = s[1][1][0] if s[1][0] == 'path' else None
-                if n and n not in local and n not in out:
-                    out.append(n)
+                for n in self.target_roots(s[1]):
+                    if n and n not in local and n not in out:
+                        out.append(n)
+            elif s[0] == 'while':
+                for n in self.assigned(s[2][1], declared):
+                    if n not in local and n not in out:
+                        out.append(n)
             elif s[0] in ('expr', 'expr_nosemi', 'tail') and s[1][0] == 'if':
                 for blk in (s[1][2], s[1][3]):
                     if blk:
@@ -624,6 +650,47 @@ class Emitter:
                             if n not in local and n not in out:
                                 out.append(n)
         return out
+
+    def target_roots(self, t):
+        """variables written by an assignment target (variable, `x.limbs[i]`, `x[i]`, tuple of targets)"""
+        if t[0] == 'path' and len(t[1]) == 1:
+            return [t[1][0]]
+        if t[0] == 'tuple':
+            r = []
+            for x in t[1]:
+                r += self.target_roots(x)
+            return r
+        if t[0] in ('index', 'fieldname', 'field'):
+            return self.target_roots(t[1])
+        return [None]
+
+    def assign_lines(self, target, term, ty, env):
+        """`let` lines realising `target = term`"""
+        if target[0] == 'path' and len(target[1]) == 1:
+            n = target[1][0]
+            if n not in env:
+                raise TranslateError('assignment to unknown variable %s' % n)
+            return 'let %s := %s\n  ' % (lean_ident(n), term)
+        if target[0] == 'tuple':
+            self.tmp = getattr(self, 'tmp', 0) + 1
+            t = 'sel%d' % self.tmp
+            out = 'let %s := %s\n  ' % (t, term)
+            n = len(target[1])
+            for i, x in enumerate(target[1]):
+                proj = '.2' * i + ('.1' if i < n - 1 else '')
+                out += self.assign_lines(x, t + proj, ty[1][i] if isinstance(ty, tuple) and ty[0] == 'tuple' else None, env)
+            return out
+        if target[0] == 'index':
+            base = target[1]
+            if base[0] == 'fieldname' and base[2] == 'limbs':
+                base = base[1]
+            roots = self.target_roots(base)
+            if len(roots) != 1 or roots[0] is None or base[0] != 'path':
+                raise TranslateError('unsupported indexed assignment target')
+            n = roots[0]
+            idx, _ = self.expr(target[2], env, 'usize')
+            return 'let %s := (%s.set %s %s)\n  ' % (lean_ident(n), lean_ident(n), idx, term)
+        raise TranslateError('unsupported assignment target')
 
     def pat_names(self, p):
         if p[0] == 'pid':
@@ -724,6 +791,9 @@ class Emitter:
             projs += '  let %s := %s%s\n' % (lean_ident(n), ('(%s)' % base) if has_ret else base, proj)
         params = ' '.join('(%s : %s)' % (lean_ident(n), self.lean_ty(env[n])) for n in ctx)
         args = ' '.join(lean_ident(n) for n in ctx)
+        if getattr(self, 'uint_mode', False):
+            params = '(BITS LIMBS : Nat) ' + params
+            args = 'BITS LIMBS ' + args
         aux = ('def %s %s (st : %s) : (%s) × Bool :=\n%s  if %s then (\n  %s)\n  else (st, false)\n'
                % (name, params, full, full, projs, sc, sbody))
         self.aux.append(aux)
@@ -791,12 +861,13 @@ class Emitter:
                 return 'let %s := %s\n  %s%s' % (t, se, projs, body), tb
             return 'let %s := %s\n  %s' % (self.pat(s[1]), se, body), tb
         if k == 'assign':
-            if s[1][0] != 'path' or len(s[1][1]) != 1:
-                raise TranslateError('unsupported assignment target')
-            n = s[1][1][0]
-            se, te = self.expr(s[2], env, env.get(n))
+            hint = env.get(s[1][1][0]) if s[1][0] == 'path' and len(s[1][1]) == 1 else None
+            if s[1][0] == 'index':
+                hint = 'u64'
+            se, te = self.expr(s[2], env, hint)
+            lines = self.assign_lines(s[1], se, te, env)
             body, tb = self.stmts(rest, env, exp, result)
-            return 'let %s := %s\n  %s' % (lean_ident(n), se, body), tb
+            return lines + body, tb
         if k == 'return':
             if isinstance(result, tuple) and result[0] == 'loop':
                 se, _ = self.expr(s[1], env, self.cur_rt)
@@ -884,6 +955,8 @@ class Emitter:
             out += 'def %s_%s : List Nat :=\n  %s\n\n' % (lean_name, tn, term)
         for a in self.aux:
             out += a + '\n'
+        if getattr(self, 'uint_mode', False):
+            params = ['(BITS LIMBS : Nat)'] + params
         if self.uses_fuel:
             params = ['(fuel : Nat)'] + params
         out += 'def %s %s : %s :=\n  %s\n' % (lean_name, ' '.join(params), self.lean_ty(rt), body)
@@ -898,6 +971,8 @@ class Emitter:
     def lean_ty(self, t):
         if t == 'bool':
             return 'Bool'
+        if t == 'uint':
+            return 'List Nat'
         if isinstance(t, tuple) and t[0] == 'tuple':
             if not t[1]:
                 return 'Unit'
@@ -944,6 +1019,7 @@ def translate(items, namespace='Ruint.Gen', imports=('Ruint.Gen.Prelude',), fns=
             text = extract_fn(src, it['fn'])
             fn = Parser(tokenize(text)).parse_fn()
             em = Emitter(fns, it.get('self_ty'), structs=it.get('structs'), gconsts=it.get('gconsts'), self_name=it.get('self_name'))
+            em.uint_mode = bool(it.get('uint'))
             code = em.function(fn, it['lean'])
             key = it.get('key', it['fn'])
             fns[key] = (it['lean'], [em.ty(t) for _, t in fn['params']], em.ty_deep(fn['ret']), em.uses_fuel)
@@ -1008,7 +1084,16 @@ def lehmer_items(repo):
     return out
 
 
+def uint_items(repo):
+    out = []
+    for f, fn in (('lib.rs', 'masked'), ('add.rs', 'overflowing_add'), ('add.rs', 'overflowing_sub')):
+        out.append({'file': repo + '/src/' + f, 'fn': fn, 'lean': 'uint_' + fn, 'key': 'Uint::' + fn, 'self_ty': 'uint',
+                    'uint': True, 'group': 'uint'})
+    return out
+
+
 GROUPS = [('core', 'Words', ('Ruint.Gen.Prelude',)),
+          ('uint', 'WordsUint', ('Ruint.Gen.Words',)),
           ('lehmer', 'WordsLehmer', ('Ruint.Gen.Prelude',)),
           ('redc', 'WordsRedc', ('Ruint.Gen.Words',)),
           ('div', 'WordsDiv', ('Ruint.Gen.Words',))]
@@ -1020,6 +1105,7 @@ def translate_all(repo):
     files = {'Prelude': PRELUDE}
     errors = []
     items = default_items(repo)
+    items += uint_items(repo)
     try:
         items += lehmer_items(repo)
     except (OSError, IOError) as ex:
